@@ -539,3 +539,61 @@ U_MODIFY = VUnit("c07_modify", ["C07", "C08"], "modify: write into the captured 
 U_MODIFY.assumes = ["gc cell semantics assumed (explicit heap, R10); VariableMapping::update is an abstract callee here with the contract unit c07_stack proves of it",
                     "heap pointers abstract: move_out_of_heap_primitive is the identity on plain values and the pointee's value on pointers"]
 UNITS.append(U_MODIFY)
+
+
+# =====================================================================================================================
+# C07: `load` -- which variable a name read inside a function denotes
+LOAD_SPEC = r"""
+// the frames of the executing function only (Stack::find_name_in_function; C07.stack.* in unit c07_stack covers the stack side)
+pub uninterp spec fn fn_lookup(f: &Frames, name: Seq<char>) -> Option<Handle>;
+pub uninterp spec fn cell_value(id: int) -> Primitive;          // current content of a cell
+impl Handle {
+    #[verifier::external_body] pub fn verif_value(&self) -> (r: Primitive) ensures r == cell_value(cell_id(self)) { unimplemented!() }
+}
+impl Ctx {
+    #[verifier::external_body]
+    pub fn load_local(&self, name: &VString) -> (r: Result<Handle, VErr>)
+        ensures r is Ok <==> fn_lookup(&self.frames, text_of(name)) is Some, r is Ok ==> cell_id(&r->Ok_0) == cell_id(&fn_lookup(&self.frames, text_of(name))->Some_0)
+    { unimplemented!() }
+}
+// the variable a free name denotes, lexically: the function's own variables, then what it captured, then (for names that are neither:
+// module-level functions calling each other) the rest of the call stack
+pub open spec fn denoted(c: &Ctx, name: Seq<char>) -> Option<int> {
+    if fn_lookup(&c.frames, name) is Some { Some(cell_id(&fn_lookup(&c.frames, name)->Some_0)) }
+    else if c.callback_state is Some && caps_view(&c.callback_state->Some_0).contains_key(name) { Some(cell_id(&caps_view(&c.callback_state->Some_0)[name])) }
+    else if frame_lookup(&c.frames, name) is Some { Some(cell_id(&frame_lookup(&c.frames, name)->Some_0)) }
+    else { None }
+}
+"""
+
+
+def build_load(repo):
+    src = Source(repo)
+    log = []
+    names = ["push", "load_callback_variable"]
+    ctx = ctx_impl(src, log, names)
+    b = handler(src, log, "load", [
+        Rule("R1", "var . primitive ( ) . clone ( )", "var . verif_value ( )", why="content of the variable's cell (clone of the value)"),
+    ])
+    gen = header(log, f"{INSTR}: load; {CTXF}: Ctx::push, Ctx::load_callback_variable") + prelude("ctx.rs") + ctx + LOAD_SPEC + f"""
+//@ OBL C07.load.lexical
+// `load NAME`: a closure reads ITS captured variable even when some caller happens to have a local of the same name
+pub fn load(ctx: &mut Ctx, args: &Vec<VString>) -> (r: Result<(), VErr>)
+    ensures
+        (args@.len() >= 1 && denoted(old(ctx), text_of(&args@[0])) is Some) <==> r is Ok,
+        r is Ok ==> final(ctx).stack@ == old(ctx).stack@.push(cell_value(denoted(old(ctx), text_of(&args@[0]))->Some_0)),
+        rest(final(ctx)) == rest(old(ctx)),
+{{
+{render(b, 1)}
+}}
+}} // verus!
+fn main() {{}}
+"""
+    obls = ctx_obls(names, ["C07"]) + [Obl("C07.load.lexical", ["C07", "C01"], fn="load", desc="load: the function's own variables first, then its captured variables, then the rest of the call stack; pushes the current content of that variable's cell")]
+    return gen, obls, log
+
+
+U_LOAD = VUnit("c07_load", ["C07", "C01"], "load: which variable a name denotes (lexical order)", build_load)
+U_LOAD.assumes = ["Stack::find_name / find_name_in_function are abstract callees here (C07.stack.find_name in unit c07_stack covers the former)",
+                  "gc cell semantics assumed: a handle denotes a cell whose current content every handle sees"]
+UNITS.append(U_LOAD)
